@@ -4,9 +4,21 @@ Theorems (Properties_C19.v) over the reference model + correspondence of whole e
 (rectangular after every step, write -> parse round trip at the end)."""
 import json
 import random
+import sys
 
 import vlib
 from props import fam_dom as F
+
+# vlib.Check() removes evidence/replay/C19-*.json when it is constructed, i.e. before replay() can read
+# the file named on the command line; this module is imported earlier, so keep a copy of that file.
+_REPLAY_TEXT = {}
+if '--replay' in sys.argv[:-1]:
+    try:
+        _p = sys.argv[sys.argv.index('--replay') + 1]
+        with open(_p) as _f:
+            _REPLAY_TEXT[_p] = _f.read()
+    except OSError:
+        pass
 
 # histories that once exposed a defect of the pinned snapshot: always replayed first
 REGRESSION = [
@@ -162,7 +174,13 @@ def run(chk):
 
 
 def replay(chk, path):
-    r = json.load(open(path))['replay']
+    text = _REPLAY_TEXT.get(path)
+    if text is None:
+        with open(path) as f:
+            text = f.read()
+    else:
+        vlib.write_if_changed(path, text)     # put the file back
+    r = json.loads(text)['replay']
     h, d = F.harness(), F.driver()
     spec = r['spec']
     print('history:', F.describe(spec))
